@@ -60,8 +60,8 @@ func TestMinimalHistories(t *testing.T) {
 			ev.Guard(func() {
 				r := newRun(t, partMinimal)
 				defer r.finish()
-				for _, o := range sc.ops {
-					r.step(o)
+				for i, o := range sc.ops {
+					r.step(o, i == len(sc.ops)-1)
 				}
 			})
 		})
